@@ -1442,7 +1442,8 @@ public:
     }
     void tstb(SttMod a, Imm16 b) {
         u16 value = RegToBus16(a.GetName());
-        regs.fz = (value >> b.Unsigned16()) & 1;
+        // the bit index comes from a full 16-bit operand: a shift count >= 32 is undefined in C++
+        regs.fz = b.Unsigned16() < 16 ? (value >> b.Unsigned16()) & 1 : 0;
     }
 
     void and_(Ab a, Ab b, Ax c) {
